@@ -36,8 +36,9 @@ import concepts
 RULE = ('cases = boolean tables (K scopes of DESIGN 3.4, labels in reverse alphabetical order) and batches of such tables '
         'for the two-process pickle check; per table every codec x lattice configuration and the raw=True permutations '
         '(all when <= 4 concepts, seeded sample beyond); non-trivial = table with >= 2 concepts, distinct up to row/column '
-        'permutation (a batch counts once)')
-SCOPE = {'quick': 'all tables <= 3x2 and <= 2x3, structured families <= 4, 25 random <= 6x6, 3 wide tables (> 64 bit); '
+        'permutation (a batch counts once); the observation includes per-concept upset/downset/minimal up to 64 concepts and '
+        'all pairwise join/meet/<= up to 12 concepts')
+SCOPE = {'quick': 'all n x m tables with n, m <= 3 except 3x3, structured families <= 4, 25 random <= 6x6, 3 wide tables (> 64 bit); '
                   '6 raw permutations beyond 4 concepts; two-process pickle (hash seeds 1 -> 2) for all tables <= 2x2, '
                   'the structured families <= 4 and 10 random tables, in batches of 30',
          'thorough': 'all tables <= 3x3 and all with n*m <= 9 (dims <= 8), structured families <= 6, 200 random <= 7x7, 6 wide '
@@ -251,7 +252,8 @@ def _batch_tables(tier, rng):
 
 
 def gen_cases(tier, rng):
-    # the two-process batches first (they are few), then the per-table cases
+    # the per-table cases first (so that the report's samples are small tables), then the two-process batches
+    yield from _table_cases(tier, rng)
     size = 30 if tier == 'quick' else 50
     batch, k = [], 0
     for t in _batch_tables(tier, rng):
@@ -267,7 +269,6 @@ def gen_cases(tier, rng):
             batch, k = [], k + 1
     if batch:
         yield {'kind': 'pickle-batch', 'id': k, 'seeds': [1, 2], 'tables': batch}
-    yield from _table_cases(tier, rng)
 
 
 def nontrivial(case):
@@ -638,9 +639,6 @@ def check_batch(case):
                 elif not got['eq']:
                     out.append(fail('pickle.%s.other-process-eq' % which, clause, True, False, table=i, what=kind,
                                     rows=t['rows']))
-                elif kind != 'lat' and got['present']:
-                    # Context.__getstate__ is documented to pickle (intents, extents): the lattice is recomputed lazily
-                    pass
             if len(out) >= 10:
                 break
     finally:
